@@ -150,10 +150,30 @@ def value_mutants(doc):
                     yield "key-added-zero-weight:values %s" % where, m
 
 
+def raw_same(a, b):
+    """exact equality of two toJson() documents: numbers by value (ints are not rounded to floats), NaN equal to NaN"""
+    na, nb = grammar.is_num(a) and not isinstance(a, bool), grammar.is_num(b) and not isinstance(b, bool)
+    if na and nb:
+        x, y = (float(a) if isinstance(a, str) else a), (float(b) if isinstance(b, str) else b)
+        if x != x or y != y:
+            return x != x and y != y
+        return x == y
+    if na != nb:
+        return False
+    if isinstance(a, dict) and isinstance(b, dict):
+        return set(a) == set(b) and all(raw_same(a[k], b[k]) for k in a)
+    if isinstance(a, (list, tuple)) and isinstance(b, (list, tuple)):
+        return len(a) == len(b) and all(raw_same(x, y) for x, y in zip(a, b))
+    return a == b
+
+
+BIG = [2 ** 53 + 2, 1700000000000000000, 2 ** 62 + 12345, -(2 ** 60) - 6, 10 ** 17]
+
+
 class C09(Scenario):
     prop = "C09"
     level = "fault_enumeration"
-    profiles = ["document", "delivery"]
+    profiles = ["document", "delivery", "built"]
     budgets = {"quick": 8000, "thorough": 150000}
     wall_caps = {"quick": 110, "thorough": 1500}
     block = 16
@@ -169,8 +189,9 @@ class C09(Scenario):
     assumptions = ["ground truth for 'differs' is inequality of the normalised toJson() documents",
                    "quantity names / functions are not corrupted (not content)", "a corrupted document the library refuses to "
                    "load is skipped and counted (C15's business)"]
-    expected_faults = ["doc_value_corrupt", "dup_record", "lost_record", "weight_swap"]
-    expected_probes = ["pair_differs_one_ulp", "pair_differs_key", "pair_differs_trailing", "clean_pair_equal", "tolerance_pair", "equal_after_history"]
+    expected_faults = ["doc_value_corrupt", "dup_record", "lost_record", "weight_swap", "bigint_off_by_one"]
+    expected_probes = ["pair_differs_one_ulp", "pair_differs_key", "pair_differs_trailing", "clean_pair_equal", "tolerance_pair", "equal_after_history", "built_stack", "built_fraction",
+                       "bigint_visible"]
 
     def generate(self, rng, tier, profile):
         sp, recs, fills, fills2 = gen_base(rng, tier, max_fill=14)
@@ -179,8 +200,19 @@ class C09(Scenario):
             f = rng.fork("faults")
             n = max(1, len(fills))
             case["fills2"] = None
-            case["steps"] = [{"op": "deliver", "fault": f.pick(["dup_record", "lost_record", "weight_swap"]), "i": f.randrange(n),
-                              "j": f.randrange(n)} for _ in range(6)]
+            flds = sorted(set(nd["f"] for nd in specmod.nodes(sp) if nd["f"] in ("x", "y"))) or ["x"]
+            case["steps"] = [{"op": "deliver", "fault": f.pick(["dup_record", "lost_record", "weight_swap", "bigint_off_by_one"]),
+                              "i": f.randrange(n), "j": f.randrange(n), "big": f.pick(BIG), "field": f.pick(flds),
+                              "delta": f.pick([1, 1, 2, -1, 100])} for _ in range(6)]
+        elif profile == "built":
+            s_ = rng.fork("knobs")
+            kind = s_.pick(["stack", "stack", "fraction"])
+            nl = 2 if kind == "fraction" else s_.randint(1, 4)
+            case["kind"] = "document"
+            case["fills2"] = None
+            case["built"] = {"kind": kind, "layers": [[[s_.randrange(len(recs)), s_.pick(specmod.POS_WEIGHTS)] for _ in range(s_.randint(0, 6))]
+                                                      for _ in range(nl)]}
+            case["steps"] = [{"op": "enumerate", "only": None}]
         else:
             case["steps"] = [{"op": "enumerate", "only": None}]
         return case
@@ -218,6 +250,22 @@ class C09(Scenario):
         if ne.ok and not bool(ne.value):
             raise self.violation(prim, "ne", "ne-false-on-different:%s" % kind.split(" ")[0], "a != b is %r for different content (%s)" % (ne.value, kind), si, detail)
 
+    def _state(self, w, case, part=None):
+        """the base state of a run: the seeded tree after its fills, or - profile `built` - a Stack / Fraction assembled by
+        Stack.build / Fraction.build from separately filled layers (their thresholds are NaN by design)"""
+        import histogrammar as hg
+
+        b = case.get("built")
+        if not b:
+            return make_state(self, w, case if part is None else part)
+        layers = [make_state(self, w, {"fills": (fl if part is None else fl[: max(0, len(fl) // 2)]), "fills2": None}) for fl in b["layers"]]
+        o = call((lambda: hg.Stack.build(*layers)) if b["kind"] == "stack" else (lambda: hg.Fraction.build(layers[0], layers[1])))
+        if not o.ok:
+            raise self.violation(exc_site(o.exc)[0], "build", "exception:%s" % type(o.exc).__name__,
+                                 "%s.build of layers of one tree raised %s" % (b["kind"], o.describe()), 0)
+        w.bump("probe_built_" + b["kind"])
+        return o.value
+
     def run(self, case, w, R):
         import histogrammar as hg
         import histogrammar.util as util
@@ -225,14 +273,17 @@ class C09(Scenario):
         sp = case["spec"]
         if case.get("kind") == "delivery":
             return self.run_delivery(case, w, R)
-        h = make_state(self, w, case)
+        h = self._state(w, case)
         try:
             doc = json.loads(json.dumps(h.toJson()))
         except (TypeError, ValueError):
             w.bump("probe_base_state_not_serialisable")  # C04's business (strict JSON)
             return
         ndoc = observe.normalise(doc)
-        root = sp["p"]
+        root = doc["type"]
+        if case.get("built"):
+            # a second, independent build from equal layers is a replica too
+            self._must_equal(h, self._state(w, case), "second-build", root, 0, w)
         # clean replicas
         for how, mk in (("copy", lambda: h.copy()), ("pickle", lambda: pickle.loads(pickle.dumps(h))), ("self", lambda: h)):
             o = call(mk)
@@ -241,8 +292,8 @@ class C09(Scenario):
             self._must_equal(h, o.value, how, root, 0, w)
         # the same comparisons again after the object has been compared and then merged into in place: a comparison must
         # not leave anything behind that a later += invalidates
-        hh = make_state(self, w, case)
-        other = make_state(self, w, {"fills": case["fills"][::-1][: max(1, len(case["fills"]) // 2)], "fills2": None})
+        hh = self._state(w, case)
+        other = self._state(w, case, {"fills": case["fills"][::-1][: max(1, len(case["fills"]) // 2)], "fills2": None})
         call(lambda: hh == hh.copy())
 
         def _iadd():
@@ -315,26 +366,48 @@ class C09(Scenario):
         units = 0
         differing = 0
         for si, st in enumerate(case["steps"]):
-            a = make_state(self, w, {"fills": fills, "fills2": None}, si)
             fl = [list(x) for x in fills]
             fault = st["fault"]
             if not fl:
                 continue
             i, j = st["i"] % len(fl), st["j"] % len(fl)
-            if fault == "dup_record":
+            saved = w.records
+            ri = fl[i][0]
+            if fault == "bigint_off_by_one" and ri < len(saved):
+                # one record carries a 64-bit integer (an event number, a nanosecond time stamp) in one replica and a
+                # neighbouring integer in the other: closer together than the spacing of doubles up there
+                w.records = list(saved)
+                w.records[ri] = dict(saved[ri], **{st.get("field", "x"): int(st.get("big", BIG[0]))})
+            try:
+                a = make_state(self, w, {"fills": fills, "fills2": None}, si)
+            finally:
+                w.records = saved
+            if fault == "bigint_off_by_one":
+                if ri < len(saved):
+                    w.records = list(saved)
+                    w.records[ri] = dict(saved[ri], **{st.get("field", "x"): int(st.get("big", BIG[0])) + int(st.get("delta", 1))})
+            elif fault == "dup_record":
                 fl.insert(i, list(fl[i]))
             elif fault == "lost_record":
                 fl.pop(i)
             else:
                 fl[i][1], fl[j][1] = fl[j][1], fl[i][1]
-            b = make_state(self, w, {"fills": fl, "fills2": None}, si)
+            try:
+                b = make_state(self, w, {"fills": fl, "fills2": None}, si)
+            finally:
+                w.records = saved
             w.bump("fault_" + fault)
-            da, db = observe.observe(a), observe.observe(b)
+            ra, rb = call(a.toJson), call(b.toJson)
+            if not ra.ok or not rb.ok:
+                continue
+            da, db = observe.normalise(ra.value), observe.normalise(rb.value)
             units += 1
-            if da == db:
+            if raw_same(ra.value, rb.value):
                 self._must_equal(a, b, "same-stream", sp["p"], si, w)
             else:
                 differing += 1
+                if da == db:
+                    w.bump("probe_bigint_visible")  # the documents differ only below the resolution of a double
                 d = observe.doc_diff(da, db) or ([], sp["p"], "?")
                 self._must_differ(a, b, "%s %s" % (fault, d[1]), d[1], si, {"fault": fault, "one": da, "other": db})
             w.record_step(st, {0: observe.obs_hash(da), 1: observe.obs_hash(db)})
